@@ -41,6 +41,9 @@ class Lock:
 
 # ------------------------------------------------------------------ builds
 
+PYTABLE_JSON = os.path.join(ROOT, "work", "py", "table.json")
+
+
 def run_translator():
     """Regenerate lean/SimVerif/Gen/*.lean from /repo/src (DESIGN 3.2)."""
     tr = os.path.join(ROOT, "translator", "translate.py")
@@ -49,6 +52,16 @@ def run_translator():
     rc, out, err = sh([sys.executable, tr, REPO, os.path.join(LEAN, "SimVerif", "Gen")])
     if rc != 0:
         raise MachineryError("translator failed: " + (out + err)[-2000:])
+    # the Python-binding table (C18). If the bindings can no longer be read into the wrapper calculus the
+    # table is emptied, so that C18's completeness theorem fails and the check reports it (no machinery error)
+    pt = os.path.join(ROOT, "translator", "pytable.py")
+    rc, out, err = sh([sys.executable, pt, REPO, os.path.join(LEAN, "SimVerif", "Gen"), os.path.join(ROOT, "spec", "pyspec.json"), PYTABLE_JSON])
+    if rc != 0:
+        stub = ("/- GENERATED stub: translator/pytable.py could not read the bindings: %s -/\nimport SimVerif.Model.PyBind\nnamespace SimVerif.Gen\n"
+                "open SimVerif.PyBind\ndef pyTable : List Entry := []\ndef pyClasses : List Name := []\nend SimVerif.Gen\n" % (out + err)[-400:].replace("-/", "- /"))
+        path = os.path.join(LEAN, "SimVerif", "Gen", "PyTable.lean")
+        if not os.path.exists(path) or open(path).read() != stub:
+            open(path, "w").write(stub)
 
 
 def lake_build(targets):
@@ -206,6 +219,9 @@ def has_nonfinite(impl):
     return False
 
 
+MIDDLE_STAGE = None
+
+
 def run_pipeline(lines, tag, wdir):
     """lines: request lines (including `case` separators). Returns list[LineRes]."""
     os.makedirs(wdir, exist_ok=True)
@@ -218,6 +234,14 @@ def run_pipeline(lines, tag, wdir):
         p = subprocess.run([VH], stdin=fi, stdout=fo, stderr=subprocess.PIPE, text=True, timeout=7200)
     if p.returncode != 0:
         raise MachineryError(f"vh crashed (rc={p.returncode}): {p.stderr[-2000:]}")
+    if MIDDLE_STAGE:
+        # an extra executor between the Rust executor and the model driver (C18: the Python module)
+        imp2 = os.path.join(wdir, tag + ".impl2")
+        with open(imp) as fi, open(imp2, "w") as fo:
+            p = subprocess.run(MIDDLE_STAGE, stdin=fi, stdout=fo, stderr=subprocess.PIPE, text=True, timeout=7200)
+        if p.returncode != 0:
+            raise MachineryError(f"middle stage crashed (rc={p.returncode}): {p.stderr[-2000:]}")
+        imp = imp2
     with open(imp) as fi, open(res, "w") as fo:
         p = subprocess.run([SIMDRV], stdin=fi, stdout=fo, stderr=subprocess.PIPE, text=True, timeout=7200)
     if p.returncode != 0:
@@ -376,6 +400,8 @@ def check_property(pid, tier, seed, replay=None):
     if rc != 0:
         raise MachineryError("simdrv does not build:\n" + out[-3000:])
     cargo_build()
+    global MIDDLE_STAGE
+    MIDDLE_STAGE = prop.prepare(sys.modules[__name__]) if hasattr(prop, "prepare") else None
 
     rng = random.Random(seed)
     if replay:
